@@ -579,6 +579,7 @@ type observer struct {
 	want []*api.ContainerUpdate
 	// runtime-side abort (Round.AbortAfter)
 	abortAfter int
+	maxChunk   int // largest Synchronize request that reached the plugin (proto.Size)
 	moreDone   int // "more" chunks the stub has accepted (its handler returned without error)
 	abortedAt  int
 	onAbort    func()
@@ -621,7 +622,11 @@ func (o *observer) observe(um ttrpc.Unmarshaler, more *bool) ttrpc.Unmarshaler {
 		err := um(v)
 		if req, ok := v.(*api.SynchronizeRequest); ok && err == nil {
 			*more = req.More
+			sz := proto.Size(req)
 			o.mu.Lock()
+			if sz > o.maxChunk {
+				o.maxChunk = sz
+			}
 			o.rpcs++
 			o.sumP += len(req.Pods)
 			o.sumC += len(req.Containers)
@@ -723,6 +728,7 @@ type roundHistory struct {
 	SentPods  int     `json:"rpc_pods_total"`
 	SentCtrs  int     `json:"rpc_ctrs_total"`
 	MoreDone  int     `json:"more_chunks_accepted"`
+	MaxChunk  int     `json:"largest_message_bytes"`
 	AbortedAt int     `json:"runtime_aborted_after_chunk,omitempty"`
 	Calls     int     `json:"handler_calls"`
 	GotPods   int     `json:"handler_pods"`
@@ -949,6 +955,7 @@ func (se *session) runRound(idx int, c Round, rs roundSizes) (rr roundResult) {
 		obs.mu.Lock()
 		hist.Chunks, hist.RPCs, hist.Calls, hist.GotPods, hist.GotCtrs = obs.chunks, obs.rpcs, obs.calls, obs.gotP, obs.gotC
 		hist.SentPods, hist.SentCtrs, hist.MoreDone, hist.AbortedAt = obs.sumP, obs.sumC, obs.moreDone, obs.abortedAt
+		hist.MaxChunk = obs.maxChunk
 		obs.mu.Unlock()
 	}
 	fail := func(format string, a ...any) roundResult {
@@ -1208,6 +1215,7 @@ func (se *session) runRound(idx int, c Round, rs roundSizes) (rr roundResult) {
 	obs.mu.Lock()
 	calls = obs.calls
 	nchunks := obs.rpcs
+	maxChunk := obs.maxChunk
 	floor := false
 	for _, ch := range obs.chunks {
 		if ch.More && ch.P+ch.C <= minObjs {
@@ -1235,6 +1243,12 @@ func (se *session) runRound(idx int, c Round, rs roundSizes) (rr roundResult) {
 	}
 	if floor {
 		rr.classes = append(rr.classes, "chunk-at-floor")
+	}
+	if maxChunk > msgMax {
+		// cannot happen through ttrpc (both ends refuse such a message); recorded, not judged
+		rr.classes = append(rr.classes, "message-over-limit-seen")
+	} else if maxChunk >= msgMax-128 {
+		rr.classes = append(rr.classes, "chunk-near-limit")
 	}
 	if delivered && nchunks > 1 {
 		rr.classes = append(rr.classes, "delivered-split")
@@ -1331,4 +1345,5 @@ func TestExh_C09(t *testing.T) {
 		}
 	}
 	r.SetExtra("sweep_cases", n)
+	runBoundarySweep(t, r)
 }
